@@ -7,7 +7,7 @@
    another user's tokens additionally requires the administrator's own session to carry a
    hardware-token factor.  Automation certificates can be minted only by an administrator or
    automation administrator and only for configured automation identities. *)
-From KM Require Import Base.Bytes Base.Tactics Model.Auth Model.AuthGate Model.Routes Model.Authz Model.AdminCache Proofs.Authz Proofs.AdminCache Proofs.AuthzGate.
+From KM Require Import Base.Bytes Base.Tactics Model.Auth Model.AuthGate Model.Routes Model.Authz Model.AdminCache Proofs.Authz Proofs.AdminCache Proofs.AuthzGate Proofs.AuthzObs.
 Import ListNotations.
 
 (* every authorization test: allowed means own data, or administrator (and a U2F session
@@ -258,6 +258,24 @@ Theorem c08_gate_and_authorize_may_act : forall (uid : name -> N) c env q adm ac
   (q_meth q <> GET -> origin_ok q) /\
   may_act adm actor level (effective_target actor target o) o.
 Proof. exact gate_and_authorize_may_act. Qed.
+
+(* The property's predicate on OBSERVATIONS.  When the correspondence reports a management request on which
+   the code and the model differ, the case file evaluates [cell_violating] on what the implementation was
+   seen to do (response class, rows of the profile table afterwards).  The flag is off exactly when the
+   observation satisfies the statements above taken for one request: every row (of the finite user list
+   compared) that differs belongs to the authenticated caller or to somebody an administrator may act on
+   (c08_history), and a success went to an authenticated caller who may act on the effective target
+   (c08_ok_authorized + c08_self_or_admin) resp. to an (automation) administrator for a configured automation
+   identity (c08_rolecert).  A flagged cell is an input on which the implementation does what they exclude. *)
+Theorem c08_obs_cell_is_spec : forall c us s r obs s',
+  cell_violating c us s r obs s' = false <->
+  ((forall v, In v us -> oprofile_eqb (find s v) (find s' v) = false ->
+      exists actor level, authenticate (required_for c (r_op r)) (resolve c (r_cred r)) = Some (actor, level) /\
+                          may_act (r_adm r) actor level v (r_op r)) /\
+   (obs = ROk ->
+      exists actor level, authenticate (required_for c (r_op r)) (resolve c (r_cred r)) = Some (actor, level) /\
+                          ok_allowed_P c r actor level)).
+Proof. exact cell_violating_false_iff. Qed.
 
 (* ---- non-vacuity ---- *)
 
